@@ -46,6 +46,16 @@ CHECKS = {
          "Verdict!CosmeticOption states the option as All minus the union of what each modifier disables; TLC enumerates all 512 subsets plus the blocking and absent basic rule, checks the antitone and union-of-parts theorems, and every case is replayed in two modifier orders through NewMatchingResult.GetCosmeticOption, Engine.MatchRequest and Engine.GetCosmeticResult (decoding the option through the selectors actually returned). Exhaustive in both tiers.",
          "Trusted: TLC; the rule text is the modifier list itself.",
          "6/C16"),
+ "C09": ("model_checking",
+         "TLC enumeration of all sequences of distinct rewrite symbols with the TLA+ Effective/Disables meaning; replay into DNSRewrites directly and through the DNS engine; TLC trace validation of random long lists",
+         "spec/Rewrites.tla defines Disables by cases and Effective with a quantifier over all positions (so the position of an exception cannot matter), plus the two-pass algorithm and, as a named deviation, the index-skipping loop of the pinned tree. TLC enumerates every sequence of distinct symbols up to length 5 (quick) / 6 (thorough) over seeded 8-symbol cores and up to length 2/3 over the full 50-symbol alphabet, checks NoException, PositionFree, LoopAgrees and ImportantSafe, and each sequence is replayed through DNSResult.DNSRewrites (direct construction, exact order) and DNSEngine.MatchRequest; compared as sequences of rule texts against Effective of what DNSRewritesAll returned. Random lists up to length 20 with values outside the table are validated by Trace_Rewrites.",
+         "Trusted: TLC; the symbol table is cross-checked against the parsed DNSRewrite fields and the value partition against reflect.DeepEqual. Empty-valued is defined on the parsed value.",
+         "6/C09"),
+ "C10": ("model_checking",
+         "TLC enumeration of the abstract $dnsrewrite value grammar with expected outcome/shape replayed into the parser; TLC trace validation of ShapeOK on mutated values",
+         "spec/RewriteValue.tla states the published contract (ShapeOK) and the expected outcome of every abstract value of the grammar (short forms, response code x record type x value class with field counts and numeric bounds). TLC enumerates all of them, checks that every expected shape satisfies ShapeOK, and the harness parses 1-6 spellings of each with the real NewNetworkRule comparing error/shape/dynamic type; a seeded driver with byte mutations records every parse (twice, for determinism) and TLC validates ShapeOK on every accepted value.",
+         "Trusted: TLC; the table from value classes to spellings. Mutated values are held to ShapeOK, determinism and crash-freedom only.",
+         "6/C10"),
 }
 
 NOT_YET = "check not built yet in this session (see DESIGN.md section 6 for the planned TLA+ decision procedure)"
